@@ -61,6 +61,10 @@ fn case(item: u64, rng: &mut Rng, acc: &mut Acc) {
         }
         let run = su.sample(&x, &Settings::meta());
         acc.evals += 1;
+        if let Outcome::Panic(p) = &run.outcome {
+            acc.violate(item, "panic_at_legal_point", "gauss:panic", json!({"config": su.describe(), "x": fjv(&x), "panic": p}));
+            continue;
+        }
         let Outcome::Ok(out) = &run.outcome else {
             acc.count(&format!("sample_{}", run.outcome.kind().chars().take(30).collect::<String>()));
             continue;
